@@ -8,10 +8,11 @@
   ‹scope› = the per-call struct holding a pointer to it, ‹stack› = the struct of []string chains):
   * `evalSharedWrites` — writes, reachable from Evaluate, into the evaluator, the data model, a
     package variable, or through an unclassifiable parameter: none.
-  * `evalPrivateWrites` — the complete remaining write set of an evaluation, all per-call: the
-    ‹scope› lives on Evaluate's stack (model: `St.status`, `St.cache`), the ‹stack› is passed by
-    value and only appended to (model: the immutable chains), `LocalBuffer` and the time scanner
-    (a ‹local object›) are locals of the bucketing / RFC 3339 code passed to their own methods.
+  * `evalPrivateWrites` — the writes into the per-call state of an evaluation: the ‹scope› lives
+    on Evaluate's stack (model: `St.status`, `St.cache`), the ‹stack› is passed by value and only
+    appended to (model: the immutable chains).
+  * `evalScratchWrites` — the remaining non-local writes: `LocalBuffer` and the time scanner (a
+    ‹local object›) are locals of the bucketing / RFC 3339 code passed to their own methods.
   * `evalDynamicCalls` are the only ways an evaluation talks to the outside (model: `flagLookups`,
     `segLookups`, `bsQueries`, `memChecks`, `events`, `logs`).
 -/
@@ -325,12 +326,14 @@ def stackPassing : List String := ["parameter or result of type ‹stack›"]
 def evalSharedWrites : List String := []
 def evalPrivateWrites : List String := [
   "append ‹stack› field of type []string",
-  "copy internal.LocalBuffer field of type []byte",
   "map update ‹scope› field of type map[string]evaluation.BigSegmentMembership",
-  "store internal.LocalBuffer field of type []byte",
-  "store ‹local object› field of type int",
   "store ‹scope› field of type ldreason.BigSegmentsStatus",
   "store ‹scope› field of type map[string]evaluation.BigSegmentMembership"
+]
+def evalScratchWrites : List String := [
+  "copy internal.LocalBuffer field of type []byte",
+  "store internal.LocalBuffer field of type []byte",
+  "store ‹local object› field of type int"
 ]
 def evalDynamicCalls : List String := [
   "call evaluation.PrerequisiteFlagEventRecorder",
